@@ -1,5 +1,5 @@
 #!/usr/bin/env python3
-"""reseed.py [pattern]: re-run every kept seeded change (seeded/*/patch.diff) against the first check recorded as
+"""[VERIF_SEED=n] reseed.py [pattern]: re-run every kept seeded change (seeded/*/patch.diff) against the first check recorded as
 detecting it (quick tier, scratch copy, suite skipped) and list the ones that are no longer reported.
 Used after generators or oracles change: a strengthened check must not have lost an earlier detection."""
 import glob, json, os, subprocess, sys
@@ -19,7 +19,7 @@ for d in sorted(glob.glob(os.path.join(root, "seeded", pat))):
     own = name.split("-")[0]
     chk = own if own in det else det[0]
     r = subprocess.run([sys.executable, os.path.join(root, "tools", "seedtest.py"), os.path.join(d, "patch.diff"), "-", chk, "--skip-suite"],
-                       capture_output=True, text=True, timeout=7200)
+                       capture_output=True, text=True, timeout=7200, env=dict(os.environ))      # VERIF_SEED is passed on
     line = r.stdout.strip().splitlines()[-1] if r.stdout.strip() else "{}"
     try:
         res = json.loads(line)
